@@ -86,6 +86,18 @@ def c09(tier, seed):
         ("fpool", "send_token", dict(amount=10, recipient="stranger")),
         ("feed", "append_price", dict(key="ETH", price=1100, t=100000)),
         ("feed", "append_multiple_price", dict(key="ETH", prices=[1100, 1200], ts=[100000, 100000])),
+        # degenerate arguments: nothing to append / change / move - the role is checked all the same
+        ("feed", "append_multiple_price", dict(key="ETH", prices=[], ts=[])),
+        ("feed", "append_price", dict(key="ETH", price=0, t=100000)),
+        ("engine", "update_config", {}),
+        ("vamm1", "update_config", {}),
+        ("ifund", "withdraw", dict(amount=0)),
+        ("fpool", "send_token", dict(amount=0, recipient="tr3")),
+        ("engine", "set_pause", dict(pause=False)),
+        ("engine", "remove_whitelist", dict(address="stranger")),
+        ("engine", "add_whitelist", dict(address="tr2")),
+        ("ifund", "remove_vamm", dict(vamm="vamm2")),
+        ("ifund", "add_vamm", dict(vamm="vamm1")),
         ("feed", "update_owner", dict(owner="newowner")),
     ]
     out = []
@@ -155,6 +167,14 @@ def c14(tier, seed):
                         tx("engine", "withdraw_margin", "tr2", dict(vamm="vamm1", amount=5)),
                         liq("liq", "tr1"),
                         tx("engine", "pay_funding", "stranger", dict(vamm="vamm1")),
+                        # ... and by the holder of the under-margined position itself
+                        tx("engine", "deposit_margin", "tr1", dict(vamm="vamm1", amount=50), funds=50 if native else 0),
+                        tx("engine", "deposit_margin", "tr1", dict(vamm="vamm1", amount=5000), funds=5000 if native else 0),
+                        tx("engine", "withdraw_margin", "tr1", dict(vamm="vamm1", amount=1)),
+                        close("tr1"),
+                        opn("tr1", "buy", 100, 1000, funds=100 if native else 0),
+                        opn("tr1", "sell", 100, 1000),
+                        liq("tr1", "tr1"),
                     ]
                     for t in trials:
                         ops = underwater_prefix(native) + [block(3600)] + gates + [
@@ -831,6 +851,315 @@ def c10adm(tier, seed):
                         close("tr3", v="vamm2")]
                 out.append(dict(id="c10adm-%d" % k, deploy=dep(coll, engine=dict(pauser="pauser"), fpool_bal=1000, vamms=[{}, {}]), ops=ops))
                 k += 1
+    return out
+
+# ------------------------------------------------------------------------------------------------
+# Sweeps (round 9): one fixed script that touches every operation, one dimension swept at a time
+def cfgsweep(tier, seed):
+    """boundary configurations: each deployment parameter in turn at its smallest / largest admissible value (and one
+    unit inside), everything else standard, under one fixed trading script that touches every operation: opens both
+    ways by three traders, an increase, a reduce, deposit, withdraw, a funding settlement with a premium, an adverse
+    move, liquidation attempts by a third party in two blocks, closes (whole or partial), a re-open"""
+    out = []
+    k = 0
+    week = 7 * 86400
+    cfgs = []
+    for fl in (1, 2, 50, 99, 100):
+        cfgs.append(dict(vamms=[dict(fluct=fl)]))
+    for plr in (1, 50, 99, 100):
+        cfgs.append(dict(engine=dict(plr=plr)))
+    for liqfee in (0, 1, 99, 100):
+        cfgs.append(dict(engine=dict(liqfee=liqfee)))
+        cfgs.append(dict(engine=dict(liqfee=liqfee, plr=25)))
+    for (imr, mmr) in ((1, 1), (1, 0), (100, 100), (100, 1), (50, 50), (99, 98)):
+        cfgs.append(dict(engine=dict(imr=imr, mmr=mmr)))
+        cfgs.append(dict(engine=dict(imr=imr, mmr=mmr, plr=25)))
+    for (toll, spread) in ((100, 0), (0, 100), (50, 50), (1, 1), (99, 1)):
+        cfgs.append(dict(vamms=[dict(toll=toll, spread=spread)]))
+    for period in (1, 59, 60, 1800, 86400, week, week + 1, 30 * 86400):
+        cfgs.append(dict(vamms=[dict(period=period)]))
+    for (period, off) in ((5400, -200), (9000, 150), (88200, -60), (129600, 40), (1800, -300), (3599, 250), (3601, -250)):
+        cfgs.append(dict(vamms=[dict(period=period)], _off=off))
+    for tw in (60, 61, 899, 901, 3600, week - 1, week):
+        cfgs.append(dict(vamms=[dict(twapint=tw)]))
+        cfgs.append(dict(vamms=[dict(twapint=tw, period=86400)]))
+    for (x, y) in ((1000, 100000), (101, 102), (150, 101), (10000000, 101), (101, 10000000), (123457, 7919)):
+        cfgs.append(dict(vamms=[dict(x=x, y=y)]))
+    for (hcap, oicap) in ((1, 0), (0, 1), (100, 0), (0, 100), (100000, 100000)):
+        cfgs.append(dict(vamms=[dict(hcap=hcap, oicap=oicap)]))
+    for ib in (0, 1, 100):
+        cfgs.append(dict(ifund_bal=ib))
+        cfgs.append(dict(ifund_bal=ib, engine=dict(plr=25)))
+    for tb in (3000, 100000000):
+        cfgs.append(dict(trader_bal=tb))
+    for coll in ("cw20", "native"):
+        native = coll == "native"
+        for c in cfgs:
+            c = dict(c)
+            poff = c.pop("_off", None)
+            vc = (c.get("vamms") or [{}])[0]
+            toll, spread = vc.get("toll", 0), vc.get("spread", 0)
+            ff = lambda m, lev=300: fee_funds(native, m, lev, toll, spread)
+            for (m, push, flip) in ((1000, 13500, False), (37, 14500, False), (1000, 16000, True)):
+                L, S_ = ("sell", "buy") if flip else ("buy", "sell")
+                ops = [block(15), opn("tr1", L, m, 300, funds=ff(m)), opn("tr2", S_, m * 2, 200, funds=ff(m * 2, 200)),
+                       block(15), opn("tr3", L, m // 2 + 1, 500, funds=ff(m // 2 + 1, 500)),
+                       opn("tr1", L, m // 4 + 1, 300, funds=ff(m // 4 + 1)), block(15),
+                       opn("tr1", S_, m // 5 + 1, 300, funds=ff(m // 5 + 1) - (m // 5 + 1) if native else 0),
+                       tx("engine", "deposit_margin", "tr2", dict(vamm="vamm1", amount=m // 10 + 1), funds=(m // 10 + 1) if native else 0),
+                       tx("engine", "withdraw_margin", "tr2", dict(vamm="vamm1", amount=m // 20 + 1)),
+                       block(vc.get("period", 3600) + 1 if vc.get("period", 3600) < 10 ** 6 else 3601),
+                       dict(k="oracle_rel", v="vamm1", off=poff if poff is not None else (20 if flip else -20)), block(901),
+                       tx("engine", "pay_funding", "stranger", dict(vamm="vamm1")),
+                       query("engine", "margin_ratio", dict(vamm="vamm1", trader="tr1")),
+                       opn("tr2", S_, push, 100, funds=ff(push, 100)), block(901),
+                       dict(k="oracle_rel", v="vamm1", off=0, interval=1),
+                       query("engine", "margin_ratio", dict(vamm="vamm1", trader="tr1")),
+                       liq("liq", "tr1"), liq("liq", "tr3")] + [o for i in range(5) for o in (
+                           opn("tr2", S_, 900, 100, funds=ff(900, 100)), block(901), liq("liq", "tr1"), liq("liq", "tr3"))] + [
+                       block(15), liq("liq", "tr1"), liq("liq", "tr2"),
+                       query("vamm1", "twap_price", dict(interval=900)),
+                       close("tr1"), close("tr3"), block(15), close("tr2"), close("tr1"), close("tr3"), block(15), close("tr2"),
+                       opn("tr1", S_, m, 100, funds=ff(m, 100)), close("tr1")]
+                d = dep(coll, **c)
+                out.append(dict(id="cfgsweep-%d" % k, deploy=d, ops=ops))
+                k += 1
+    return out
+
+def timesweep(tier, seed):
+    """the same full script (see cfgsweep) with one uniform gap between all transactions, swept over the boundaries of
+    every clock in the system: same block, new block at the same second, 1 s, the 15-minute TWAP window -1/0/+1, the
+    funding period -1/0/+1 and its half, a day, a week +1, 10^7 s; funding attempted after every step"""
+    out = []
+    k = 0
+    for coll in ("cw20", "native"):
+        native = coll == "native"
+        ff = lambda m, lev=300: fee_funds(native, m, lev, 0, 0)
+        for plr in (0, 25):
+            for period in (3600, 86400):
+                for gap in (None, 0, 1, 14, 899, 900, 901, period // 2 - 1, period // 2, period - 1, period, period + 1, 86400, 604801, 10 ** 7):
+                    B = lambda: ([] if gap is None else [dict(k="block", dh=1, dt=gap)])
+                    pf = tx("engine", "pay_funding", "stranger", dict(vamm="vamm1"))
+                    steps = [opn("tr1", "buy", 1000, 300, funds=ff(1000)), opn("tr2", "sell", 2000, 200, funds=ff(2000, 200)),
+                             dict(k="oracle_rel", v="vamm1", off=-15), pf,
+                             opn("tr3", "buy", 501, 500, funds=ff(501, 500)), opn("tr1", "buy", 251, 300, funds=ff(251)), pf,
+                             opn("tr1", "sell", 201, 300), tx("engine", "deposit_margin", "tr2", dict(vamm="vamm1", amount=101), funds=101 if native else 0),
+                             tx("engine", "withdraw_margin", "tr2", dict(vamm="vamm1", amount=51)), pf,
+                             query("vamm1", "twap_price", dict(interval=900)), query("vamm1", "twap_price", dict(interval=period)),
+                             opn("tr2", "sell", 14500, 100, funds=ff(14500, 100)),
+                             query("engine", "margin_ratio", dict(vamm="vamm1", trader="tr1")), liq("liq", "tr1"), liq("liq", "tr3"),
+                             opn("tr2", "sell", 1500, 100, funds=ff(1500, 100)), liq("liq", "tr1"), liq("liq", "tr3"), pf,
+                             opn("tr2", "sell", 1500, 100, funds=ff(1500, 100)), liq("liq", "tr1"), liq("liq", "tr3"), liq("liq", "tr1"),
+                             close("tr1"), close("tr3"), pf, close("tr2"), close("tr2"), close("tr1"),
+                             query("vamm1", "twap_price", dict(interval=900))]
+                    ops = [block(15)]
+                    for st in steps:
+                        ops += [st] + (B() if st.get("k") == "tx" else [])
+                    out.append(dict(id="timesweep-%d" % k, deploy=dep(coll, engine=dict(plr=plr), vamms=[dict(period=period, fluct=0)]), ops=ops))
+                    k += 1
+    return out
+
+def amtsweep(tier, seed):
+    """amounts at their extremes: margin / deposit / withdrawal / leverage of zero, one unit, the whole wallet, one unit
+    more than the wallet, the whole free collateral; an allowance smaller than / equal to the amount; close limits of
+    one unit and of 2^31; orders of one unit against a large position"""
+    out = []
+    k = 0
+    wallet = 30000
+    for coll in ("cw20", "native"):
+        native = coll == "native"
+        for (toll, spread) in ((0, 0), (5, 10)):
+            ff = lambda m, lev=100: fee_funds(native, m, lev, toll, spread)
+            for margin in (0, 1, 2, 99, 100, 101, wallet // 2, wallet - 1, wallet, wallet + 1):
+                for lev in (1, 99, 100, 101, 1000, 2000):
+                    for side in ("buy", "sell"):
+                        osd = "sell" if side == "buy" else "buy"
+                        ops = [block(15), opn("tr1", side, margin, lev, funds=min(ff(margin, lev), wallet)),
+                               query("engine", "position", dict(vamm="vamm1", trader="tr1")), block(15),
+                               tx("engine", "deposit_margin", "tr1", dict(vamm="vamm1", amount=0)),
+                               tx("engine", "deposit_margin", "tr1", dict(vamm="vamm1", amount=1), funds=1 if native else 0),
+                               tx("engine", "withdraw_margin", "tr1", dict(vamm="vamm1", amount=0)),
+                               tx("engine", "withdraw_margin", "tr1", dict(vamm="vamm1", amount=1)),
+                               opn("tr1", osd, 1, 100, funds=0), opn("tr1", side, 1, 100, funds=ff(1, 100)),
+                               opn("tr1", osd, 0, 100), opn("tr1", side, 1, 0), block(15),
+                               dict(k="withdraw_rel", s="tr1", v="vamm1", off=0),
+                               close("tr1", limit=1 if side == "sell" else 2 ** 31 - 1), close("tr1", limit=0),
+                               tx("engine", "withdraw_margin", "tr1", dict(vamm="vamm1", amount=1)), close("tr1")]
+                        out.append(dict(id="amtsweep-%d" % k, deploy=dep(coll, trader_bal=wallet, vamms=[dict(toll=toll, spread=spread)]), ops=ops))
+                        k += 1
+    return out
+
+
+def manyfund(tier, seed):
+    """long funding histories: 30 / 70 settlements with alternating, non-zero premiums while positions are held (one
+    opened before the first settlement, one after the 20th), then every charging operation; a liquidation after the
+    history"""
+    out = []
+    k = 0
+    for coll in ("cw20", "native"):
+        native = coll == "native"
+        for n in (30, 70):
+            for tail in ("close", "withdraw", "reduce", "deposit", "liquidate"):
+                ops = [block(15), opn("tr1", "buy", 2000, 200, funds=2000 if native else 0), opn("tr2", "sell", 900, 300, funds=900 if native else 0)]
+                for i in range(n):
+                    ops += [dict(k="oracle_rel", v="vamm1", off=(7 if i % 3 else -11) + i % 5), block(86401),
+                            tx("engine", "pay_funding", "stranger", dict(vamm="vamm1"))]
+                    if i == 20:
+                        ops += [opn("tr3", "buy", 700, 200, funds=700 if native else 0)]
+                ops += [query("engine", "position", dict(vamm="vamm1", trader="tr1")),
+                        query("engine", "margin_ratio", dict(vamm="vamm1", trader="tr1"))]
+                if tail == "close":
+                    ops += [close("tr1"), close("tr3"), close("tr2")]
+                elif tail == "withdraw":
+                    ops += [tx("engine", "withdraw_margin", "tr1", dict(vamm="vamm1", amount=10)), dict(k="withdraw_rel", s="tr3", v="vamm1", off=0), close("tr1"), close("tr3"), close("tr2")]
+                elif tail == "reduce":
+                    ops += [opn("tr1", "sell", 500, 200), opn("tr3", "buy", 100, 200, funds=100 if native else 0), close("tr1"), close("tr3"), close("tr2")]
+                elif tail == "deposit":
+                    ops += [tx("engine", "deposit_margin", "tr1", dict(vamm="vamm1", amount=300), funds=300 if native else 0),
+                            query("engine", "position", dict(vamm="vamm1", trader="tr1")), close("tr1"), close("tr3"), close("tr2")]
+                else:
+                    ops += [opn("tr2", "sell", 15000, 100, funds=15000 if native else 0), block(901), dict(k="oracle_rel", v="vamm1", off=0, interval=1),
+                            liq("liq", "tr1"), liq("liq", "tr3"), opn("tr2", "sell", 2500, 100, funds=2500 if native else 0), block(901),
+                            liq("liq", "tr1"), liq("liq", "tr3"), block(15), close("tr1"), close("tr3"), close("tr2")]
+                out.append(dict(id="manyfund-%d" % k, deploy=dep(coll, engine=dict(plr=0), vamms=[dict(period=86400)]), ops=ops))
+                k += 1
+    return out
+
+def emptywallet(tier, seed):
+    """cw20 wallets emptied between two actions: the trader moves the whole wallet (or all but one unit / all but the
+    fee) to another account, then closes / reduces / reverses / withdraws with fees on - whatever the protocol owes or
+    charges is settled out of the position, not out of what the wallet happens to hold"""
+    out = []
+    k = 0
+    for (toll, spread) in ((5, 10), (2, 3), (10, 0), (0, 10), (0, 0)):
+        for side in ("buy", "sell"):
+            osd = "sell" if side == "buy" else "buy"
+            for keep in (0, 1, 30, 500):
+                for tail in ("close", "reduce", "reverse", "withdraw", "liquidated"):
+                    ops = [block(15), opn("tr1", side, 6000, 1000), opn("tr2", osd, 1000, 500), block(15),
+                           dict(k="transfer_all", s="tr1", to="stranger", keep=keep)]
+                    if tail == "close":
+                        ops += [close("tr1")]
+                    elif tail == "reduce":
+                        ops += [opn("tr1", osd, 2000, 1000), close("tr1")]
+                    elif tail == "reverse":
+                        ops += [dict(k="flatten", s="tr1", v="vamm1", delta=0), opn("tr1", osd, 70000, 1000), close("tr1")]
+                    elif tail == "withdraw":
+                        ops += [tx("engine", "withdraw_margin", "tr1", dict(vamm="vamm1", amount=100)), close("tr1")]
+                    else:
+                        ops += [opn("tr2", osd, 5500, 1000), block(901), liq("liq", "tr1"), close("tr1")]
+                    ops += [close("tr2")]
+                    out.append(dict(id="emptywallet-%d" % k, deploy=dep("cw20", vamms=[dict(toll=toll, spread=spread)]), ops=ops))
+                    k += 1
+    return out
+
+def flatbook(tier, seed):
+    """a book whose NET position is exactly zero - all positions closed, or live longs and shorts that offset exactly -
+    after trades that left rounding residue in the reserves and after a settlement with a premium: funding settled by
+    a keeper in that state, then every trader's position queried and traded on, and the book brought flat again"""
+    out = []
+    k = 0
+    day = 86400
+    for coll in ("cw20", "native"):
+        native = coll == "native"
+        for live in (True, False):
+            for (q1, q3) in ((3700, 1300), (6000, 777), (2500, 2500), (1000, 4000), (5000, 1000), (8000, 3333)):
+                for off in (-15, 15):
+                    f = lambda m: m if native else 0
+                    # tr3 makes the market non-flat, a settlement with a premium is recorded, then tr1 and tr2 take exactly
+                    # offsetting positions (the same quote amount in and out in one block) and tr3 leaves
+                    ops = [block(15), opn("tr3", "sell", q3, 100, funds=f(q3)),
+                           dict(k="oracle_rel", v="vamm1", off=off), block(day),
+                           tx("engine", "pay_funding", "stranger", dict(vamm="vamm1")), block(15),
+                           opn("tr1", "buy", q1, 100, funds=f(q1)), opn("tr2", "sell", q1, 100, funds=f(q1)), block(15)]
+                    if live:
+                        ops += [close("tr3"), dict(k="offset", s="tr2", v="vamm1")]
+                    else:
+                        ops += [close("tr1"), close("tr2"), close("tr3")]
+                    ops += [query("vamm1", "state", {}), dict(k="oracle_rel", v="vamm1", off=off), block(day),
+                            tx("engine", "pay_funding", "stranger", dict(vamm="vamm1")), query("vamm1", "state", {})]
+                    for t in ("tr1", "tr2", "tr3"):
+                        ops += [query("engine", "position", dict(vamm="vamm1", trader=t))]
+                    ops += [block(15), opn("tr3", "buy", 2500, 100, funds=f(2500)), opn("tr3", "sell", 2500, 100), block(15),
+                            opn("tr1", "sell", 333, 100, funds=f(333)), close("tr1"), close("tr2"), close("tr3"), query("vamm1", "state", {}),
+                            block(day), tx("engine", "pay_funding", "stranger", dict(vamm="vamm1")),
+                            opn("tr3", "buy", 1234, 100, funds=f(1234)), close("tr3"), query("vamm1", "state", {})]
+                    out.append(dict(id="flatbook-%d" % k, deploy=dep(coll, vamms=[dict(period=day)]), ops=ops))
+                    k += 1
+    return out
+
+def c15red(tier, seed):
+    """orders that REDUCE a position (and closes, reversals) landing just inside / just beyond the band edge, by
+    ordinary and by whitelisted traders"""
+    out = []
+    k = 0
+    for wl in (False, True):
+        for fl in (5, 8):
+            for side in ("buy", "sell"):
+                osd = "sell" if side == "buy" else "buy"
+                edge = 2500 if fl == 5 else 4000
+                for d in (-400, -150, -40, 0, 40, 150, 400, 1500):
+                    for kind in ("reduce", "reverse", "close"):
+                        ops = [block(15)]
+                        if wl:
+                            ops += [tx("engine", "add_whitelist", "owner", dict(address="tr1"))]
+                        ops += [opn("tr1", side, 3000, 100), block(15), opn("tr1", side, 3000, 100), block(15), opn("tr1", side, 3000, 100), block(15)]
+                        if kind == "reduce":
+                            ops += [opn("tr1", osd, edge + d, 100)]
+                        elif kind == "reverse":
+                            ops += [opn("tr2", side, 3000, 100), block(15), opn("tr1", osd, 9000 + edge + d, 100)]
+                        else:
+                            ops += [opn("tr2", osd, edge + d, 100), close("tr1")]
+                        ops += [query("vamm1", "spot_price", {}), block(15), close("tr1"), close("tr2")]
+                        out.append(dict(id="c15red-%d" % k, deploy=dep("cw20", trader_bal=5000000, engine=dict(plr=25), vamms=[dict(fluct=fl)]), ops=ops))
+                        k += 1
+    return out
+
+def c18sub(tier, seed):
+    """block times with sub-second parts: a constant and a slowly moving price over many blocks a few (fractional)
+    seconds apart, then TWAPs over intervals inside the history"""
+    out = []
+    for j, (n, move) in enumerate(((14, False), (14, True), (40, True))):
+        ops = [dict(k="block", dh=1, dt=15, dns=0), tx("vamm1", "swap_input", "drv", dict(dir="add", amount=500, limit=0, over=False))]
+        for i in range(n):
+            ops.append(dict(k="block", dh=1, dt=4 + i % 3, dns=(137000000 * (i + 3)) % 1000000000))
+            if move:
+                ops.append(tx("vamm1", "swap_input", "drv", dict(dir="add" if i % 4 < 2 else "rem", amount=20 + i, limit=0, over=False)))
+            for iv in (5, 8, 13, 30, 60):
+                ops.append(query("vamm1", "twap_price", dict(interval=iv)))
+        for g in (61, 600, 3600):
+            ops.append(dict(k="block", dh=1, dt=g, dns=333333333))
+            for iv in (8, 60, 300, 900):
+                ops.append(query("vamm1", "twap_price", dict(interval=iv)))
+        out.append(dict(id="c18sub-%d" % j, deploy=dep("cw20", direct=True), ops=ops))
+    return out
+
+def c13fund(tier, seed):
+    """twin scenarios in which the position has received / paid funding before its owner reduces, flattens exactly,
+    reverses beyond it or closes (the amount owed nets the funding of the closed leg)"""
+    out = []
+    k = 0
+    day = 86400
+    for (toll, spread) in ((0, 0), (1, 1)):
+        for side in ("buy", "sell"):
+            osd = "sell" if side == "buy" else "buy"
+            for off in (-40, 40):
+                for (rm, rlev) in ((1000, 1000), (8000, 1000), (30000, 200), (2000, 500)):
+                    ops = [block(15), opn("tr1", side, 2000, 1000), opn("tr2", osd, 500, 500),
+                           dict(k="oracle_rel", v="vamm1", off=off), block(day),
+                           tx("engine", "pay_funding", "stranger", dict(vamm="vamm1")), block(15),
+                           opn("tr1", osd, rm, rlev), opn("tr2", side, 3000, 200), close("tr1"), close("tr2")]
+                    out.append(dict(id="c13fund-%d" % k, deploy=dep("cw20", vamms=[dict(toll=toll, spread=spread, period=day)]), ops=ops))
+                    k += 1
+    return out
+
+def wl_all(scns, who=("tr1", "tr2", "tr3")):
+    """the same histories with every trader on the engine's whitelist from the start"""
+    out = []
+    for s in scns:
+        ops = list(s["ops"])
+        ins = [tx("engine", "add_whitelist", "owner", dict(address=t)) for t in who]
+        out.append(dict(id="wl-" + s["id"], deploy=s["deploy"], ops=ops[:1] + ins + ops[1:]))
     return out
 
 # ------------------------------------------------------------------------------------------------
@@ -1723,6 +2052,9 @@ def c11pl(tier, seed):
                         ops += [close("tr2")]
                         out.append(dict(id="c11pl-%d" % k, deploy=dep(coll, engine=dict(plr=25, liqfee=1, mmr=8, imr=8), vamms=[dict(period=day)]), ops=ops))
                         k += 1
+                        if tail == "close":
+                            out.append(dict(id="c11pl-%d" % k, deploy=dep(coll, engine=dict(plr=0, liqfee=1, mmr=8, imr=8), vamms=[dict(period=day)]), ops=ops))
+                            k += 1
     return out
 
 def c15full(tier, seed):
@@ -1759,7 +2091,7 @@ def noallow(tier, seed):
 
 FAMILIES = ["c02lp", "c04", "c04r", "c04p", "c05", "c06", "c06f", "c07", "c08", "c10", "c16", "c17", "c03",
             "zsr", "zsrliq", "attached", "fundzero", "c07edge", "c14f", "c12hi", "c15sub", "selfliq", "c13flat",
-            "dustliq", "fundbig", "fundempty", "c06t", "closelim", "c17q", "c04prepaid", "c05red", "liqfees", "c02tw", "wdrel", "c15fund", "c16pc", "zeroeq", "twoliq", "spike", "fundrnd", "c12wl", "c11pl", "c10adm"]
+            "dustliq", "fundbig", "fundempty", "c06t", "closelim", "c17q", "c04prepaid", "c05red", "liqfees", "c02tw", "wdrel", "c15fund", "c16pc", "zeroeq", "twoliq", "spike", "fundrnd", "c12wl", "c11pl", "c10adm", "cfgsweep", "timesweep", "amtsweep", "manyfund", "emptywallet", "flatbook", "c15red"]
 
 def pool(tier, seed, cap=200, exclude=(), only_cw20=False):
     """a seeded sample across ALL scenario families: every engine property is also judged on the inputs that
@@ -1833,6 +2165,9 @@ def for_property(pid, tier, seed):
         out = [("c15sub", c15sub(tier, seed)), ("c07edge", c07edge(tier, seed)), ("closelim", closelim(tier, seed)), ("c15fund", c15fund(tier, seed)), ("c15full", c15full(tier, seed))]
     if pid == "C18":
         out = [("c18long", c18long(tier, seed)), ("c15sub", c15sub(tier, seed)), ("c15fund", c15fund(tier, seed)), ("c18feedlong", c18feedlong(tier, seed)), ("c10adm", c10adm(tier, seed))]
+    SWEEPS = {'C05': ['cfgsweep', 'amtsweep', 'manyfund', 'emptywallet'], 'C06': ['cfgsweep', 'timesweep', 'manyfund'], 'C07': ['cfgsweep', 'timesweep', 'manyfund'], 'C02': ['cfgsweep', 'timesweep', 'manyfund', 'flatbook'], 'C04': ['cfgsweep', 'manyfund', 'emptywallet', 'flatbook'], 'C12': ['cfgsweep', 'amtsweep', 'manyfund', 'emptywallet'], 'C11': ['cfgsweep', 'timesweep', 'manyfund', 'flatbook'], 'C15': ['cfgsweep', 'timesweep', 'c15red'], 'C16': ['timesweep', 'cfgsweep'], 'C18': ['timesweep', 'cfgsweep', 'c18sub'], 'C03': ['amtsweep', 'manyfund', 'cfgsweep', 'emptywallet', 'flatbook'], 'C17': ['amtsweep', 'cfgsweep'], 'C20': ['cfgsweep'], 'C08': ['timesweep'], 'C10': ['timesweep', 'flatbook'], 'C01': ['flatbook']}
+    for fam in SWEEPS.get(pid, []):
+        out.append((fam, globals()[fam](tier, seed)))
     if pid in ENGINE_PROPS:
         # every engine property is also judged on a sample of all other families
         out.append(("pool", pool(tier, seed, cap=220 if q else 4000)))
